@@ -199,7 +199,16 @@ impl ToInternedString for SimplePropertyAccess {
         let target = self.target.to_interned_string(interner);
         match self.field {
             PropertyAccessField::Const(ident) => {
-                format!("{target}.{}", interner.resolve_expect(ident.sym()))
+                // `1.x` would be lexed as the number `1.` followed by `x`: keep the dot apart
+                // from a decimal integer literal (`1 .x`).
+                let sep = if matches!(&*self.target, Expression::Literal(_))
+                    && target.bytes().all(|b| b.is_ascii_digit())
+                {
+                    " ."
+                } else {
+                    "."
+                };
+                format!("{target}{sep}{}", interner.resolve_expect(ident.sym()))
             }
             PropertyAccessField::Expr(ref expr) => {
                 format!("{target}[{}]", expr.to_interned_string(interner))
